@@ -153,7 +153,7 @@ def get_value(chk, P):
     cls = P.cls(mod, "TableReaderBase")
     site = cls.lookup("getValue").site()
     total = 0
-    for n in (1, 2, 3, 4):
+    for n in (range(1, 8) if chk.tier == "thorough" else (1, 2, 3, 4)):
         I = F.make_interp(P)
         inst = InstV(cls)
         xs = [2 * i for i in range(n)]
